@@ -157,7 +157,7 @@ def gen_cases(rng, n):
         cases.append("XW " + spec)
     cases += ur_cases()
     cases += xl_cases()
-    cases += ["UA6 u", "UA6 16", "UA6 512", "UA4 u", "UA4 16", "UA4 512", "UE", "UO6 65508", "UO6 65527", "UO u", "UO 32", "UO 512"]
+    cases += ["UA6 u", "UA6 16", "UA6 512", "UA4 u", "UA4 16", "UA4 512", "UK u", "UK 16", "UK 512", "UE", "UO6 65508", "UO6 65527", "UO u", "UO 32", "UO 512"]
     cases += big_udp_cases()
     cases += stats_sample_cases(rng, max(10, n // 10))
     for _ in range(n):
@@ -224,7 +224,7 @@ def xw_as_model_case(case, obs):
     if t[0] in ("XS", "BXS", "XN", "BXN"):
         ops = ",".join(o for o in t[3].split(",") if o != "m")
         return ("X b q0 " if t[0] in ("XS", "XN") else "BX %s q0 " % t[1]) + ops
-    if t[0] in ("UR", "XL", "UA6", "UA4", "UE", "UO6", "UO") or (t[0] == "BU" and t[1].isdigit() and int(t[1]) > 65000):
+    if t[0] in ("UR", "XL", "UA6", "UA4", "UK", "UE", "UO6", "UO") or (t[0] == "BU" and t[1].isdigit() and int(t[1]) > 65000):
         return "UA 0 -"          # judged on the implementation's observation only
     if t[0] != "XW":
         return case
@@ -290,7 +290,8 @@ def judge_ua6(t, obs):
     want = [b"six:1|c", "z\u00f6lf:12|ms".encode()] if t[1] == "u" else None
     bad = []
     if int(parts["second"]):
-        bad.append(("C13", "%s datagram(s) went to the second address of the list" % parts["second"]))
+        bad.append(("C13", "%s datagram(s) went to %s" % (parts["second"], "the peer the socket was connected to, not to the address "
+                                                           "given at construction" if t[0] == "UK" else "the second address of the list")))
     if t[0] == "UA4":
         # the IPv4 sender cannot reach the IPv6 first address: nothing arrives anywhere, the unbuffered sink answers an
         # error per emit, every attempt is a dropped packet and nothing counts as sent
@@ -308,7 +309,7 @@ def judge_ua6(t, obs):
         return bad
     payload = b"".join(first) if t[1] == "u" else b"".join(first).replace(b"\n", b"")
     if payload != b"six:1|c" + "z\u00f6lf:12|ms".encode() or (want is not None and first != want):
-        bad.append(("C13", "the first address of the list (IPv6, followed by an IPv4 one) received %r (results %s)" % (first, parts["R"])))
+        bad.append(("C13", "the address given at construction (the first of the list) received %r (results %s)" % (first, parts["R"])))
     return bad
 
 
@@ -413,7 +414,7 @@ def judge(case, obs):
         return judge_ur(t, obs)
     if t[0] == "XL":
         return judge_xl(t, obs)
-    if t[0] in ("UA6", "UA4"):
+    if t[0] in ("UA6", "UA4", "UK"):
         return judge_ua6(t, obs)
     if t[0] == "UO6":
         if obs == "noipv6":
@@ -645,6 +646,23 @@ def judge(case, obs):
                             bad.append((pid, "flush (op %d) returned Ok with the listener up, but %r, acknowledged earlier, had not "
                                         "reached it (%d datagrams received so far)" % (j, missing[0][:40], seen[j])))
                         break
+        # after a flush that answered Ok nothing remains buffered: the next flush - with no emit in between, whatever
+        # the listener did meanwhile - puts nothing on the wire
+        if parts.get("N") and not queued:
+            seen = [int(x) for x in parts["N"].split(",")]
+            last_ok_flush = None
+            for j, (op, r) in enumerate(zip(ops, res)):
+                if j >= len(seen):
+                    break
+                if op[0] == "E":
+                    last_ok_flush = None
+                elif op == "F":
+                    if last_ok_flush is not None and seen[j] != seen[j - 1]:
+                        for pid in ("C13", "C06", "C07"):
+                            bad.append((pid, "flush (op %d) returned Ok, no emit followed, yet the next flush (op %d) put %d datagram(s) on "
+                                        "the wire: the first flush had not written everything" % (last_ok_flush, j, seen[j] - seen[j - 1])))
+                        break
+                    last_ok_flush = j if r == "k0" else None
         # greedy at the level of the real sink: while what has been emitted since the last write fits the configured
         # capacity, an emit puts nothing on the wire (listener always there, no queue in between)
         if parts.get("N") and "l" not in ops and not queued:
@@ -719,7 +737,7 @@ def run_sock_check(prop, tier, seed):
         for i, c in enumerate(cases):
             if c.startswith("XW"):
                 impl[i], model[i] = xw_views(c, impl[i], model[i])
-            elif c.split()[0] in ("UR", "XL", "UA6", "UA4", "UE", "UO6", "UO") or (c.startswith("BU ") and c.split()[1].isdigit() and int(c.split()[1]) > 65000):
+            elif c.split()[0] in ("UR", "XL", "UA6", "UA4", "UK", "UE", "UO6", "UO") or (c.startswith("BU ") and c.split()[1].isdigit() and int(c.split()[1]) > 65000):
                 model[i] = impl[i]                 # judged, not modelled
             elif c.split()[0] in ("XS", "BXS", "XN", "BXN"):
                 # which listener got what is judged, not modelled; the `-` of op m is not in the model's results
